@@ -51,7 +51,7 @@ def one_tree(rng, tid, shape=None):
             lab = rng.choice([x for x in LABEL_POOL if x]) if rng.random() < prob else None
             out.append(None if lab is None else [ord(c) for c in lab])
         return out
-    return {"tid": tid, "pure": rng.random() < 0.3, "pre": rng.choice([0, 0, 0, 1, 1, 2, 3]),
+    return {"tid": tid, "pure": rng.random() < 0.3, "pre": rng.choice([0, 0, 0, 1, 1, 2, 3, 4, 4]),
             "tlabel": some(0.25), "glabel": some(0.15),
             "kind": kind, "parent": parent, "req": req,
             "crit": [rng.random() < 0.5 for _ in range(n)],
